@@ -352,7 +352,7 @@ def iteration_space(ctx, dev) -> None:
                   f"partition loop iterates `{show(pit)[:80]}`; expected range(max(len(l) for l in <per-well lists>)): steps at the end (or start) of the lists are never emitted", where=w)
     # inner: zip(srcs, dsts, L)
     zit = Z.ast.iter
-    ok_z = isinstance(zit, ast.Call) and call_fname(zit) == "zip" and len(zit.args) == 3 and is_name(zit.args[2], L)
+    ok_z = isinstance(zit, ast.Call) and call_fname(zit) == "zip" and len(zit.args) == 3 and (is_name(zit.args[2], L) or is_name(fv.alias_root(zit.args[2], t.Z), L))
     ctx.rep.check(ok_z, rule, cb + "/rows", "row loop zips sources, destinations and the per-well lists", f"row loop iterates `{show(zit)[:60]}`", where=f.where(Z.ast))
     # element access l[p] under len(l) > p
     v = fv.res.resolve((fv.bind_args(t.A) or {})["volumes"], t.A.node)
